@@ -63,8 +63,10 @@ mod proofs {
     use super::*;
     #[kani::proof] #[kani::unwind(8)] #[kani::stub(alloc::fmt::format, empty_format)]
     fn c17_posix_parse_6() { posix_parse::<KaniSrc, 6>(&mut KaniSrc::new()) }
-    #[kani::proof] #[kani::unwind(8)] #[kani::stub(alloc::fmt::format, empty_format)]
-    fn c17_posix_parse_6_witness() { posix_parse::<KaniSrc, 6>(&mut KaniSrc::new()); assert!(false); }
+    #[kani::proof] #[kani::unwind(7)] #[kani::stub(alloc::fmt::format, empty_format)]
+    fn c17_posix_parse_4() { posix_parse::<KaniSrc, 4>(&mut KaniSrc::new()) }
+    #[kani::proof] #[kani::unwind(7)] #[kani::stub(alloc::fmt::format, empty_format)]
+    fn c17_posix_parse_4_witness() { posix_parse::<KaniSrc, 4>(&mut KaniSrc::new()); assert!(false); }
     #[kani::proof] #[kani::unwind(11)] #[kani::stub(alloc::fmt::format, empty_format)]
     fn c17_posix_parse_9() { posix_parse::<KaniSrc, 9>(&mut KaniSrc::new()) }
     #[kani::proof] #[kani::unwind(22)] #[kani::stub(alloc::fmt::format, empty_format)]
